@@ -384,6 +384,83 @@ Proof.
   rewrite H in E. cbn [obs] in E. symmetry in E. exact (substring_spec_not_panic _ _ _ _ E).
 Qed.
 
+(** ** The unchanged arm outside the known classes (KF-C06-substring-negative-length: a negative
+    length; KF-C06-substring-bytes: a scalar word with a non-ASCII character). *)
+Lemma cur_bounds_rel k' n off olen : 0 <= n -> (forall l, olen = Some l -> 0 <= l) ->
+  let '(a, b) := substring_bounds n off olen in
+  0 <= a /\ a <= b /\ b <= n /\
+  match bash_bounds k' n off olen with
+  | Empty => a = b
+  | Range a' b' => (a = a' /\ b = b') \/ (a = b /\ a' = b')
+  | BadLength => False
+  end.
+Proof.
+  intros Hn Hl. unfold substring_bounds, bash_bounds.
+  destruct olen as [l|]; [specialize (Hl l eq_refl)|]; destruct k';
+  repeat (match goal with
+          | |- context [?a <? ?b] => destruct (Z.ltb_spec a b)
+          | |- context [?a <=? ?b] => destruct (Z.leb_spec a b)
+          end; cbn [orb]);
+  try lia; repeat split; try lia.
+Qed.
+
+Lemma slice_empty {A} (l : list A) a : slice l a a = [].
+Proof. unfold slice. rewrite Z.sub_diag. reflexivity. Qed.
+
+Theorem substring_outside_known : forall sh r off olen, fits sh r ->
+  (forall l, olen = Some l -> 0 <= l) ->
+  (forall w, is_list r = false -> words sh r = Some [w] -> ascii w = true) ->
+  obs (substring sh r off olen) = substring_spec sh r off olen.
+Proof.
+  intros sh r off olen Hfit Hpos Hasc. unfold substring.
+  destruct (is_list r) eqn:Hl.
+  - rewrite substring_spec_is_list by assumption. unfold substring_spec_list.
+    pose proof (expand_list sh r false Hl) as He. specialize (Hfit _ He). rewrite He.
+    rewrite with_name_list in * by assumption.
+    set (ws := list_words sh r) in *.
+    unfold polymorphic_len, polymorphic_len' in *. cbn [fields from_array] in *.
+    set (k' := match r with RArgs _ => KArgs | _ => KArray end).
+    pose proof (cur_bounds_rel k' (Z.of_nat (length ws)) off olen ltac:(lia) Hpos) as Hb.
+    destruct (substring_bounds _ off olen) as [a b]. destruct Hb as (H0 & Hab & Hbn & Hb).
+    unfold polymorphic_subslice. rewrite !as_usize_small by lia.
+    destruct (Z.ltb_spec b a); [lia|]. cbn [from_array fields].
+    destruct (Z.ltb_spec (Z.of_nat (length ws)) a); [lia|].
+    cbn [obs]. unfold with_fields; cbn [concatenate from_array undefined]. rewrite dq_list by assumption.
+    rewrite Z.min_l by lia.
+    destruct (is_nil ws) eqn:Hnil.
+    + destruct ws; [|discriminate]. cbn. rewrite skipn_nil, firstn_nil. reflexivity.
+    + destruct (bash_bounds k' _ off olen) as [|a' b'|]; try contradiction.
+      * subst b. fold (slice ws a a). rewrite slice_empty. reflexivity.
+      * fold (slice ws a b). destruct Hb as [[-> ->]|[-> ->]]; [reflexivity|]. rewrite !slice_empty. reflexivity.
+  - unfold substring_spec.
+    assert (Hs : shape_of r = Scalar) by (destruct r; try discriminate; reflexivity). rewrite Hs.
+    pose proof (expand_scalar sh r false Hl) as He. rewrite He.
+    destruct (words sh r) as [l|] eqn:W.
+    + destruct (words_scalar_single _ _ _ Hl W) as [w ->]. cbn [join_with] in *.
+      specialize (Hfit _ He). specialize (Hasc w eq_refl eq_refl).
+      assert (Hna : with_shell_name sh r (of_string w) = of_string w) by (destruct r; try discriminate; reflexivity).
+      rewrite Hna in *.
+      assert (Hlen' : polymorphic_len' (of_string w) = length w) by reflexivity. rewrite Hlen' in *.
+      assert (Hlen : polymorphic_len (of_string w) = length w).
+      { unfold polymorphic_len, of_string; cbn [from_array fields]. rewrite fold_len_single. apply byte_len_ascii; assumption. }
+      rewrite Hlen.
+      pose proof (cur_bounds_rel KScalar (Z.of_nat (length w)) off olen ltac:(lia) Hpos) as Hb.
+      destruct (substring_bounds _ off olen) as [a b]. destruct Hb as (H0 & Hab & Hbn & Hb).
+      unfold polymorphic_subslice. rewrite !as_usize_small by lia.
+      destruct (Z.ltb_spec b a); [lia|]. cbn [from_array of_string obs]. 
+      unfold dq_args; cbn [concatenate with_fields of_string fields]. rewrite sub_fields_single by lia.
+      fold (slice w a b).
+      destruct (bash_bounds KScalar _ off olen) as [|a' b'|]; try contradiction.
+      * subst b. rewrite slice_empty. reflexivity.
+      * destruct Hb as [[-> ->]|[-> ->]]; [reflexivity|]. rewrite !slice_empty. reflexivity.
+    + unfold undefined_expansion. cbn [orb]. destruct (nounset sh); cbn [negb]; [reflexivity|].
+      assert (Hna : with_shell_name sh r undefined_exp = undefined_exp) by (destruct r; try discriminate; reflexivity).
+      rewrite Hna. change (polymorphic_len undefined_exp) with 0%nat. cbn [Z.of_nat].
+      pose proof (cur_bounds_rel KScalar 0 off olen ltac:(lia) Hpos) as Hb.
+      destruct (substring_bounds 0 off olen) as [a b]. destruct Hb as (H0 & Hab & Hbn & _).
+      assert (a = 0) by lia. assert (b = 0) by lia. subst. reflexivity.
+Qed.
+
 (** On the unchanged tree [${x:2:-5}] with x=abcd panics ([end - index] on [usize]). *)
 Definition abcd : str := [97; 98; 99; 100]%N.
 Theorem substring_refuted : exists sh r off olen, substring sh r off olen = Panic.
